@@ -357,6 +357,16 @@ func runCase(phase string, i int) worker.Result {
 
 	histKinds := ""
 	if kind == "oci" && phase != "race" {
+		// tag some manifests so that GC has something to keep
+		for _, id := range nodes {
+			if stored[id] && g.Nodes[id].Kind.IsManifestKind() && rng.IntN(3) == 0 {
+				if err := ociStore.Tag(ctx, g.Nodes[id].Desc, fmt.Sprintf("t%d", id)); err != nil {
+					res.Violate("tag-failed", fmt.Sprintf("Tag(node %d): %v", id, err), witness(g, kind, orderClass, history))
+					return res
+				}
+				history = append(history, step{Op: "tag", Node: id})
+			}
+		}
 		steps := 2 + rng.IntN(8)
 		for s := 0; s < steps; s++ {
 			switch op := rng.IntN(10); {
@@ -384,6 +394,40 @@ func runCase(phase string, i int) worker.Result {
 					if !after[n] {
 						stored[n] = false
 					}
+				}
+			case op == 4: // GC that meets a corrupted manifest blob: a failed GC must change nothing
+				var cands []int
+				for _, id := range nodes {
+					if stored[id] && g.Nodes[id].Kind.IsManifestKind() {
+						cands = append(cands, id)
+					}
+				}
+				if len(cands) == 0 {
+					continue
+				}
+				id := cands[rng.IntN(len(cands))]
+				blobPath := filepath.Join(dir, "blobs", g.Nodes[id].Desc.Digest.Algorithm().String(), g.Nodes[id].Desc.Digest.Encoded())
+				orig, rerr := os.ReadFile(blobPath)
+				if rerr != nil {
+					continue
+				}
+				os.Chmod(blobPath, 0o644)
+				if werr := os.WriteFile(blobPath, []byte("{corrupted"), 0o644); werr != nil {
+					continue
+				}
+				gcErr := ociStore.GC(ctx)
+				if _, serr := os.Stat(blobPath); serr == nil {
+					os.WriteFile(blobPath, orig, 0o444)
+				}
+				history = append(history, step{Op: fmt.Sprintf("gc-with-corrupt-blob(err=%v)", gcErr != nil), Node: id})
+				histKinds += "c"
+				if gcErr == nil {
+					after := existing(st, g, nodes)
+					for _, n := range nodes {
+						stored[n] = after[n]
+					}
+				} else {
+					res.Count("failed_gc_steps", 1)
 				}
 			case op < 6: // GC
 				if err := ociStore.GC(ctx); err != nil {
